@@ -80,7 +80,7 @@ def run(props, tier="quick", only=None, with_tests=False):
     for m in table:
         if m["prop"] not in props:
             continue
-        if only and only not in m["name"]:
+        if only and not any(o in m["name"] for o in only.split(",")):
             continue
         root = make_copy()
         try:
